@@ -223,6 +223,25 @@ func gen(t *rapid.T) Case {
 	} else {
 		c.S = genString(t, "s", maxLen, alpha)
 	}
+	// one string in five holds a long run of one code in drawn letter case (a scaffold gap nnnnNNNN, a poly-A tail): what
+	// is long is the stretch of one letter, not the string
+	if rapid.IntRange(0, 4).Draw(t, "letter_run") == 0 {
+		code := rapid.SampledFrom([]byte("NNNATCGRYSWKM")).Draw(t, "run_letter")
+		n := rapid.SampledFrom([]int{8, 16, 31, 32, 33, 40, 64, 100, 255, 256, 257, 1000}).Draw(t, "run_length")
+		caseBits := rapid.Uint64().Draw(t, "run_case")
+		run := make([]byte, n)
+		for i := range run {
+			run[i] = code
+			if caseBits>>(uint(i)%64)&1 == 1 {
+				run[i] = code - 'A' + 'a'
+			}
+		}
+		at := 0
+		if len(c.S) > 0 {
+			at = rapid.IntRange(0, len(c.S)).Draw(t, "run_at")
+		}
+		c.S = c.S[:at] + string(run) + c.S[at:]
+	}
 	c.B = genString(t, "b", 200, alpha)
 	if rapid.IntRange(0, 4).Draw(t, "sparse_codes") == 0 {
 		// a long, mostly concrete sequence with a few ambiguity codes anywhere in it (a degenerate codon in a long
